@@ -706,3 +706,354 @@ def replay_case(rec):
     for k, (sk, rc, msg, n, fns) in r['find'].items():
         return msg
     return None
+
+# ================================================================================================ E. structure-aware mutants
+class Node:
+    """one TLV of a valid code: raw tag octets, raw length octets (None = minimal encoding of the actual content length),
+    value octets or children"""
+    __slots__ = ('t', 'l', 'v', 'kids')
+    def __init__(self, t, l, v, kids):
+        self.t, self.l, self.v, self.kids = t, l, v, kids
+    def copy(self):
+        return Node(self.t, self.l, self.v, [k.copy() for k in self.kids] if self.kids is not None else None)
+    def body(self):
+        return self.v if self.kids is None else b''.join(k.ser() for k in self.kids)
+    def ser(self):
+        b = self.body()
+        return self.t + (self.l if self.l is not None else C.der_l_enc(len(b))) + b
+    def walk(self, path=()):
+        yield path, self
+        if self.kids is not None:
+            for i, k in enumerate(self.kids):
+                yield from k.walk(path + (i,))
+    def at(self, path):
+        n = self
+        for i in path:
+            n = n.kids[i]
+        return n
+
+def parse_forest(data):
+    """valid DER contents -> list of Nodes (constructed tags are descended)"""
+    out = []
+    pos = 0
+    while pos < len(data):
+        r = C.der_dec(data[pos:])
+        assert r is not None, data[pos:pos + 8].hex()
+        tag, val, cons = r
+        t = C.der_t_enc(tag)
+        kids = parse_forest(val) if t[0] & 0x20 else None
+        out.append(Node(t, None, val if kids is None else None, kids))
+        pos += cons
+    return out
+
+def tag_forms(t):
+    """every tag form in place of t: other short tags, class / constructed bit, long forms of 2..5 octets, leading 80,
+    number < 31 in long form, unterminated"""
+    f = []
+    b0 = t[0]
+    num = t[0] & 31 if len(t) == 1 else None
+    f += [('tag:other-short', bytes([x])) for x in (0x00, 0x04, 0x30) if bytes([x]) != t]
+    f += [('tag:class-flipped', bytes([b0 ^ 0x40]) + t[1:]), ('tag:constructed-flipped', bytes([b0 ^ 0x20]) + t[1:])]
+    hi = b0 | 0x1F
+    if num is not None:
+        f += [('tag:long-form-of-small-number', bytes([hi, num])), ('tag:long-leading-80', bytes([hi, 0x80, max(num, 31)]))]
+    else:
+        f += [('tag:truncated', t[:-1]), ('tag:last-octet-continued', t[:-1] + bytes([t[-1] | 0x80])), ('tag:long-leading-80', t[:1] + b'\x80' + t[1:]),
+              ('tag:short-with-same-bits', bytes([b0 & 0xE0 | 0x1E]))]
+    f += [('tag:long-zero-number', bytes([hi, 0x00])), ('tag:long-alone', bytes([hi])),
+          ('tag:long-2', bytes([hi, 0x1F])), ('tag:long-2', bytes([hi, 0x7F])), ('tag:long-3', bytes([hi, 0x81, 0x00])), ('tag:long-3', bytes([hi, 0xFF, 0x7F])),
+          ('tag:long-4', bytes([hi, 0x81, 0x80, 0x01])), ('tag:long-5', bytes([hi, 0x81, 0x80, 0x80, 0x01])),
+          ('tag:unterminated', bytes([hi, 0xFF])), ('tag:unterminated', bytes([hi, 0xFF, 0xFF])), ('tag:unterminated', bytes([hi, 0xFF, 0xFF, 0xFF])),
+          ('tag:unterminated', bytes([hi, 0xFF, 0xFF, 0xFF, 0xFF]))]
+    return [(n, x) for n, x in f if x != t]
+
+def len_forms(n, tier):
+    """every length form in place of the minimal code of n"""
+    f = []
+    canon = C.der_l_enc(n)
+    minr = len(canon) - 1
+    for r in range(1, 9):
+        if r > minr or (minr == 0 and r >= 1):
+            f.append(('len:non-minimal-%d' % r, bytes([0x80 | r]) + n.to_bytes(r, 'big')))
+    f.append(('len:long-9', b'\x89' + n.to_bytes(9, 'big')))
+    f.append(('len:80', b'\x80')); f.append(('len:FF', b'\xff'))
+    if n:
+        f.append(('len:minus-1', C.der_l_enc(n - 1)))
+    f.append(('len:plus-1', C.der_l_enc(n + 1)))
+    f.append(('len:2^32-1', b'\x84\xff\xff\xff\xff'))
+    f.append(('len:2^63', b'\x88\x80' + bytes(7)))
+    for k in range(0, 17) if tier == 'thorough' else (0, 1, 2, 7, 8, 9, 10, 16):
+        f.append(('len:SIZE_MAX-k', b'\x88' + (SIZE_MAX - k).to_bytes(8, 'big')))
+    return [(a, b) for a, b in f if b != canon]
+
+INT_TAGS = (b'\x02', b'\x5f\x29')
+PSTR_TAGS = (b'\x13', b'\x42', b'\x5f\x20')
+
+def value_forms(node):
+    """type-specific content mutants of a primitive node"""
+    t, v = node.t, node.v
+    f = []
+    if t in INT_TAGS:
+        f += [('int:empty', b''), ('int:negative', b'\x80'), ('int:negative', b'\xff' + v), ('int:zero-padded', b'\x00' + v), ('int:zero-padded', b'\x00\x00'),
+              ('int:negative', bytes([v[0] | 0x80]) + v[1:] if v else b'\xff')]
+    if t == b'\x06' and v:
+        starts = [i for i in range(len(v)) if i == 0 or not v[i - 1] & 0x80]
+        last = starts[-1]
+        f += [('oid:empty', b''), ('oid:unterminated', v[:-1] + bytes([v[-1] | 0x80])), ('oid:last-octet-dropped', v[:-1]),
+              ('oid:80-prefixed', b'\x80' + v), ('oid:80-prefixed', v[:last] + b'\x80' + v[last:]),
+              ('oid:arc-2^32', v[:last] + bytes.fromhex('9080808000')), ('oid:arc-2^32-1', v[:last] + bytes.fromhex('8FFFFFFF7F')),
+              ('oid:arc-2^35', v[:last] + bytes.fromhex('FFFFFFFF7F')), ('oid:arc-2^42', v[:last] + bytes.fromhex('FFFFFFFFFF7F')),
+              ('oid:other', v[:-1] + bytes([(v[-1] + 1) & 0x7F]))]
+    if t in PSTR_TAGS and v:
+        for pos in sorted(set((0, min(8, len(v) - 1), len(v) - 1))):
+            for ch in (0x00, 0x2A, 0x80):
+                f.append(('pstr:octet-%02X' % ch, v[:pos] + bytes([ch]) + v[pos + 1:]))
+        f += [('pstr:longer', v + b'A' * (13 - len(v))), ('pstr:shorter', v[:7])]
+    if t == b'\x03' and len(v) >= 2:
+        for u in range(1, 9):
+            f.append(('bit:unused-%d' % u, bytes([u]) + v[1:]))
+        f.append(('bit:unused-1-zero-padding', b'\x01' + v[1:-1] + bytes([v[-1] & 0xFE])))
+        f.append(('bit:no-unused-octet', v[1:]))
+    return [(a, b) for a, b in f if b != v]
+
+def mutants(code, tier, forest_prefix=b'', forest_suffix=b'', fix=None):
+    """structure-aware mutants of a valid code.  code: the DER part (a forest); fix(body) re-frames a mutated DER part
+    (default: prefix || body || suffix).  Yields (label, octets)."""
+    roots = parse_forest(code)
+    assert b''.join(r.ser() for r in roots) == code
+    frame = fix or (lambda b: forest_prefix + b + forest_suffix)
+    seen = set()
+    def emit(label, body, raw=False):
+        m = body if raw else frame(body)
+        if m not in seen:
+            seen.add(m)
+            return [(label, m)]
+        return []
+    whole = frame(code)
+    for k in range(len(whole)):
+        yield from emit('truncate', whole[:k], raw=True)
+    yield from emit('trailing:octet-after', whole + b'\x00', raw=True)
+    yield from emit('trailing:tlv-after', whole + b'\x05\x00', raw=True)
+    class Top:
+        pass
+    paths = []
+    for ri, r in enumerate(roots):
+        for p, n in r.walk():
+            paths.append((ri, p))
+    def rebuild(ri, p, fn, freeze=False):
+        rs = [r.copy() for r in roots]
+        if freeze:
+            # ancestors keep their original length octets
+            n = rs[ri]
+            chain = [n]
+            for i in p:
+                n = n.kids[i]; chain.append(n)
+            for a in chain[:-1]:
+                a.l = C.der_l_enc(len(a.body()))
+        fn(rs[ri].at(p))
+        return b''.join(r.ser() for r in rs)
+    for ri, p in paths:
+        n0 = roots[ri].at(p)
+        where = '%s@%s' % (n0.t.hex(), '.'.join(map(str, (ri,) + p)))
+        n = len(n0.body())
+        for lab, tf in tag_forms(n0.t):
+            yield from emit(lab + ' ' + where, rebuild(ri, p, lambda x: setattr(x, 't', tf)))
+        for lab, lf in len_forms(n, tier):
+            body = rebuild(ri, p, lambda x: setattr(x, 'l', lf), freeze=True)
+            yield from emit(lab + ' ' + where, body)
+            # the same, cut right behind the mutated length field
+            off = body.find(n0.t + lf)
+            if off >= 0:
+                m = frame(body)
+                cut = m.find(n0.t + lf)
+                yield from emit(lab + '+cut ' + where, m[:cut + len(n0.t) + len(lf)], raw=True)
+        if n0.kids is None:
+            for lab, vf_ in value_forms(n0):
+                yield from emit(lab + ' ' + where, rebuild(ri, p, lambda x: setattr(x, 'v', vf_)))
+                yield from emit(lab + '+outer-lengths-kept ' + where, rebuild(ri, p, lambda x: setattr(x, 'v', vf_), freeze=True))
+        else:
+            def add_kid(x, extra):
+                x.kids.append(Node(extra[:1], None, extra[2:], None))
+            yield from emit('trailing:inside ' + where, rebuild(ri, p, lambda x: x.kids.append(Node(b'\x05', None, b'', None))))
+            yield from emit('trailing:octet-inside ' + where, rebuild(ri, p, lambda x: x.kids.append(Node(b'', b'', b'\x00', None))))
+            if n0.kids:
+                yield from emit('element:dropped-last ' + where, rebuild(ri, p, lambda x: x.kids.pop()))
+                yield from emit('element:dropped-first ' + where, rebuild(ri, p, lambda x: x.kids.pop(0)))
+                yield from emit('element:duplicated ' + where, rebuild(ri, p, lambda x: x.kids.append(x.kids[-1].copy())))
+            if len(n0.kids) >= 2:
+                yield from emit('element:swapped ' + where, rebuild(ri, p, lambda x: x.kids.reverse()))
+
+def mut_class(label):
+    return label.split(' ')[0]
+
+OIDS_MUT = ['1.2.112.0.2.0.34.101.45.2.1', '2.999.4294967295.127.128', '0.0', '1.39.16383.16384']
+SM_SHAPES = [(0, 0), (0, 1), (0, 256), (0, 257), (0, 65536), (1, 0), (16, 0), (16, 256), (16, 257), (16, 65536), (239, 256), (240, 256), (256, 0), (256, 256), (300, 65536)]
+
+def sm_frame(hdr, rdf_len):
+    def fix(body):
+        short = len(body) < 256 and rdf_len <= 256
+        lc = bytes([len(body)]) if short else b'\x00' + (len(body) & 0xFFFF).to_bytes(2, 'big')
+        return hdr + lc + body + (b'' if rdf_len == 0 else (b'\x00' if short else b'\x00\x00'))
+    return fix
+
+def sm_field_mutants(w, f):
+    """Lc* / Le* / CLA forms around a valid protected command w (f = its parsed fields)"""
+    hdr = w[:4]; lcl = f['lc_len']
+    body = w[4 + lcl:4 + lcl + len(f['maced']) - 4 + 10]
+    n = len(body)
+    tail = w[4 + lcl + n:]
+    out = []
+    lcs = [('lc:short', bytes([n & 255])), ('lc:extended', b'\x00' + n.to_bytes(2, 'big')), ('lc:minus-1', C_lc(n - 1, lcl)), ('lc:plus-1', C_lc(n + 1, lcl)),
+           ('lc:zero', b'\x00' if lcl == 1 else b'\x00\x00\x00'), ('lc:absent', b''), ('lc:extended-nonzero-first', b'\x01' + n.to_bytes(2, 'big'))]
+    les = [('le:absent', b''), ('le:00', b'\x00'), ('le:0000', b'\x00\x00'), ('le:01', b'\x01'), ('le:0001', b'\x00\x01'), ('le:000000', b'\x00\x00\x00')]
+    for a, lc in lcs:
+        for b, le in les:
+            out.append(('%s+%s' % (a, b), hdr + lc + body + le))
+    out.append(('cla:unprotected', bytes([hdr[0] & 0xFB]) + w[1:]))
+    return [(l, m) for l, m in out if m != w]
+
+def C_lc(n, lcl):
+    n = max(n, 0)
+    return bytes([n & 255]) if lcl == 1 else b'\x00' + (n & 0xFFFF).to_bytes(2, 'big')
+
+def mutant_items(tier):
+    """-> list of (fname, case, target, label)"""
+    import belt
+    th = tier == 'thorough'
+    items = []
+    # bign parameters of every level (+ the optional cofactor)
+    for l, cof in ((128, False), (192, False), (256, False), (128, True)):
+        d = S.ecparams_enc(K.std_params(l), cofactor=cof)
+        for label, m in mutants(d, tier):
+            items.append(('bignParamsDec', dict(der=m), 'params%d%s' % (l, '+cofactor' if cof else ''), label))
+    # CV certificates of every key length
+    for n in (24, 32, 48, 64):
+        for hats in ((True, True), (False, False)):
+            base = dict(K.cvc_base(n, hats, self_signed=False))
+            g, cert = K.cvc_model_wrap(base, K.privkey(n))
+            for label, m in mutants(cert, tier):
+                if not th and n in (24, 48) and not hats[0] and mut_class(label).startswith('len:SIZE_MAX'):
+                    continue
+                items.append(('btokCVCUnwrap', dict(cert=m, pubkey=None), 'cvc%d%s' % (n, '+hats' if hats[0] else ''), label))
+            # the signature check sees every truncation / trailing octet too
+            for label, m in mutants(cert, tier):
+                if mut_class(label) in ('truncate', 'trailing:octet-after', 'trailing:inside', 'len:plus-1', 'len:minus-1') and (th or len(m) % 4 == 0):
+                    items.append(('btokCVCUnwrap', dict(cert=m, pubkey=g['pubkey']), 'cvc%d+sigcheck' % n, label))
+        # documented exception: zero access words may be present
+        z = dict(K.cvc_base(n, (False, False)), pubkey=g['pubkey'])
+        body = C.der_tsize_enc(0x5F29, 0) + C.der_tpstr_enc(0x42, z['authority']) + \
+            C.der_tseq_enc(0x7F49, C.der_oid_enc(S.OID_BIGN_PUBKEY) + C.der_bit_enc(z['pubkey'], 8 * len(z['pubkey']))) + C.der_tpstr_enc(0x5F20, z['holder']) + \
+            C.der_tseq_enc(0x7F4C, C.der_oid_enc(S.OID_EID_ACCESS) + C.der_oct_enc(bytes(5))) + C.der_toct_enc(0x5F25, z['from']) + C.der_toct_enc(0x5F24, z['until']) + \
+            C.der_tseq_enc(0x65, C.der_tseq_enc(0x73, C.der_oid_enc(S.OID_ESIGN_AUTH_EXT) + C.der_tseq_enc(0x7F4C, C.der_oid_enc(S.OID_ESIGN_ACCESS) + C.der_oct_enc(bytes(2)))))
+        body = C.der_tseq_enc(0x7F4E, body)
+        certz = C.der_tseq_enc(0x7F21, body + C.der_toct_enc(0x5F37, K.cvc_sign(body, K.privkey(n))))
+        items.append(('btokCVCUnwrap', dict(cert=certz, pubkey=g['pubkey']), 'cvc%d+zero-hats' % n, 'valid'))
+    # bpki containers: the outer EncryptedPrivateKeyInfo ...
+    key = S.epki_key(K.PWD, K.SALT, 10000)
+    for kind, secret in (('privkey', K.privkey(32)), ('privkey', K.privkey(64)), ('share', bytes([3]) + K.data(16, 4)), ('share', bytes([16]) + K.data(32, 4))):
+        e = S.epki_wrap(secret, K.PWD, K.SALT, 10000, kind)
+        for label, m in mutants(e, tier):
+            x = S.epki_dec(m)
+            if x is not None and (x['salt'], x['iter']) != (K.SALT, 10000):
+                continue                                   # another (admissible) iteration count / salt: hours of PBKDF2, not generated
+            if not th and len(secret) in (64, 33) and mut_class(label).startswith(('len:', 'tag:')) and not mut_class(label).startswith('len:SIZE_MAX'):
+                continue
+            items.append(('bpki.unwrap', dict(kind=kind, epki=m, pwd=K.PWD), 'epki-%s%d' % (kind, len(secret)), label))
+        # ... and the PrivateKeyInfo inside the (valid) protection
+        pki = S.pki_enc(secret, kind)
+        for label, m in mutants(pki, tier):
+            if len(m) < 16:
+                continue
+            mc = mut_class(label)
+            if not th and (len(secret) in (64, 33) or (mc.startswith('len:SIZE_MAX') and '+cut' in mc) or (mc == 'truncate' and len(m) % 3)):
+                continue
+            items.append(('bpki.unwrap', dict(kind=kind, epki=S.epki_enc(K.SALT, 10000, belt.kwp_wrap(key, m, None)), pwd=K.PWD), 'pki-%s%d' % (kind, len(secret)), label))
+    # SM-protected commands and responses
+    for cl, rl in SM_SHAPES if th else SM_SHAPES[::2] + [(16, 256)]:
+        w = S.sm_cmd_wrap(K.SMKEY, 1, 0x00, 0xA4, 4, 12, K.data(cl, 5), rl)
+        f = S.sm_cmd_parse(w)
+        lcl = f['lc_len']
+        n = len(w) - 4 - lcl - (0 if rl == 0 else (1 if lcl == 1 else 2))
+        code = w[4 + lcl:4 + lcl + n]
+        seen = set()
+        for fix in (sm_frame(w[:4], rl), lambda b, w=w, lcl=lcl, n=n: w[:4 + lcl] + b + w[4 + lcl + n:]):
+            for label, m in mutants(code, tier, fix=fix):
+                if m not in seen and len(m) <= 70000:
+                    seen.add(m)
+                    items.append(('btokSM.unwrap', dict(what='cmd', key=K.SMKEY, ctr=1, apdu=m), 'smcmd(%d,%d)' % (cl, rl), label))
+        for label, m in sm_field_mutants(w, dict(f, maced=f['maced'])):
+            if m not in seen:
+                seen.add(m)
+                items.append(('btokSM.unwrap', dict(what='cmd', key=K.SMKEY, ctr=1, apdu=m), 'smcmd(%d,%d)' % (cl, rl), label))
+    for n in (0, 1, 16, 243, 244, 300) if th else (0, 16, 244):
+        w = S.sm_resp_wrap(K.SMKEY, 2, 0x90, 0x00, K.data(n, 6))
+        for label, m in mutants(w[:-2], tier, forest_suffix=w[-2:]):
+            items.append(('btokSM.unwrap', dict(what='resp', key=K.SMKEY, ctr=2, apdu=m), 'smresp(%d)' % n, label))
+    return items
+
+def oid_mutant_strings(tier):
+    out = []
+    for o in OIDS_MUT:
+        for label, m in mutants(C.oid_to_der(o), tier):
+            out.append((label, m))
+    return out
+
+ROOT_BY_CLASS = (('int:empty', 'der:TSIZE-value-absent-or-short'), ('pstr:octet-00', 'der:PSTR-NUL-accepted'), ('oid:unterminated', 'der:OID-empty-or-unterminated-subidentifier-accepted'),
+                 ('oid:empty', 'der:OID-empty-or-unterminated-subidentifier-accepted'), ('oid:last-octet-dropped', 'der:OID-empty-or-unterminated-subidentifier-accepted'),
+                 ('len:SIZE_MAX-k', 'der:length-near-SIZE_MAX-wraps'), ('bit:unused', 'der:BIT-nonzero-padding-accepted'))
+
+def crash_key(stderr, label):
+    k, m = C07.classify(stderr)
+    fr = re.findall(r'#\d+ 0x[0-9a-f]+ in (\w+) ', stderr)
+    if 'derTSIZEDec' in fr[:2]:
+        return 'der:TSIZE-value-absent-or-short', m
+    if mut_class(label).startswith('len:SIZE_MAX-k') and any(f.startswith('der') for f in fr[:3]):
+        return 'der:length-near-SIZE_MAX-wraps', m
+    return 'crash:' + k, m
+
+def mut_job(item):
+    fname, case, tgt, label = item
+    fn = cat.CAT[fname]
+    L = common.lib(CFG)
+    res = common.run_fn(L, fname, case)
+    exp = fn.ref(case)
+    msg = cat.compare(res, exp)
+    out = {'ret': res.get('ret'), 'msg': None}
+    want = exp.get('ret')
+    if msg is None and fname == 'bignParamsDec' and res['ret'] == 0:
+        # accepted: re-encoding the decoded parameters reproduces the accepted octets (cofactor is OPTIONAL: dropped by the encoder)
+        with vf.Arena(L) as A:
+            r, raw = K.c_params_dec(L, A, case['der'])
+            r2, der2 = K.c_params_enc(L, A, raw)
+        f = S.ecparams_dec(case['der'])
+        if r2 == 0 and der2 != S.ecparams_enc(f):
+            msg = 're-encoding of the decoded parameters gives %s..., the canonical code is %s...' % (der2[:16].hex(), S.ecparams_enc(f)[:16].hex())
+        elif r2 == 0 and not f['cofactor'] and der2 != case['der']:
+            msg = 'accepted code is not reproduced by bignParamsEnc'
+    if msg:
+        acc = res.get('ret') == 0
+        wacc = (want == 0) if not callable(want) else False
+        kind = 'accepts' if acc and not wacc else 'rejects' if wacc and not acc else ('error-class' if not acc and not wacc else 'value')
+        mc = mut_class(label)
+        key = None
+        if kind in ('accepts', 'error-class', 'value'):
+            for pre, k in ROOT_BY_CLASS:
+                if mc.startswith(pre):
+                    key = k
+        if key is None:
+            key = 'mut:%s:%s:%s' % (re.sub(r'[\d(),+]+.*', '', tgt), mc, kind)
+        out['msg'] = msg; out['key'] = key; out['kind'] = kind
+    return out
+
+def replay_mut(rec):
+    global CFG
+    CFG = rec.get('cfg', CFG)
+    item = (rec['fn'], cat.dec_case(rec['case']), rec.get('target', ''), rec.get('label', ''))
+    r = vf.pmap(mut_job, [item], nproc=1)[0]
+    if 'crash' in r or 'harness_error' in r:
+        if 'harness_error' in r:
+            return 'harness error: ' + r['harness_error'][-300:]
+        return '%s on mutant "%s" of %s: %s' % (rec['fn'], rec.get('label'), rec.get('target'), crash_key(r.get('stderr', ''), rec.get('label', ''))[1])
+    if r['msg']:
+        return '%s on mutant "%s" of %s: %s [%s]' % (rec['fn'], rec.get('label'), rec.get('target'), r['msg'], r['kind'])
+    return None
